@@ -5,6 +5,7 @@ CONSTANTS
   HasTimeout = {j1}
   IgnoresTerm = {}
   PopenMayFail = {}
+  PreFix = FALSE
   CoarseCancel = FALSE
   Modes = {"nowait"}
 INVARIANTS NoCancelBeforePopenWitness
